@@ -85,3 +85,56 @@ package shutterservice
 //@   invariant len(topics) <= 4
 //@   invariant topicsFromPreds(d, topics, rangeindex)
 //@   invariant@2 topicIndex < 4 && topicIndex == d.LogPredicates[rangeindex + 1].LogValueRef.Offset
+//@
+//@ // ---- C06 / C05: signatures on released keys, Shutter-service flavour --------------------------------
+//@ const MAXMSG = 1048576
+//@ pred wfKeysS(keys) := keys != nil && len(keys.Keys) <= MAXMSG && (forall i :: 0 <= i && i < len(keys.Keys) ==> keys.Keys[i] != nil)
+//@ pred wfExtraS(x) := x != nil && len(x.SignerIndices) <= MAXMSG && len(x.Signature) <= MAXMSG
+//@ pred signersOKS(x, n) := (forall i :: 0 <= i && i < len(x.SignerIndices) ==> x.SignerIndices[i] < n) && (forall i :: 1 <= i && i < len(x.SignerIndices) ==> x.SignerIndices[i - 1] < x.SignerIndices[i])
+//@
+//@ func validateSignerIndices
+//@   requires extra != nil && n >= 0
+//@   ensures ret0 == 0 <==> signersOKS(extra, n)
+//@   ensures ret0 == 0 <==> ret1 == nil
+//@   ensures ret0 == 0 || ret0 == 1
+//@   invariant forall j :: 0 <= j && j <= rangeindex ==> extra.SignerIndices[j] < n
+//@   invariant forall j :: 1 <= j && j <= rangeindex ==> extra.SignerIndices[j - 1] < extra.SignerIndices[j]
+//@
+//@ pred dataIsS(d, keys) := d.InstanceID == keys.InstanceId && d.Eon == keys.Eon && len(d.IdentityPreimages) == len(keys.Keys) && (forall i :: 0 <= i && i < len(keys.Keys) ==> d.IdentityPreimages[i].Bytes == keys.Keys[i].IdentityPreimage)
+//@ pred emptySigs(x) := len(x.SignerIndices) == 0 && len(x.Signature) == 0
+//@
+//@ // The sentence of C06 for the service flavour: same rule over (instance, eon, identities), except that
+//@ // a message carrying NEITHER signers NOR signatures is admitted.
+//@ func ValidateDecryptionKeysSignatures
+//@   requires wfKeysS(keys) && wfExtraS(extra) && keyperSet != nil
+//@   ensures ret0 == 0 || ret0 == 1
+//@   ensures ret0 == 0 <==> ret1 == nil
+//@   ensures ret0 == 0 ==> len(extra.Signature) == len(extra.SignerIndices)
+//@   ensures ret0 == 0 && !emptySigs(extra) ==> len(extra.SignerIndices) == keyperSet.Threshold
+//@   ensures ret0 == 0 && !emptySigs(extra) ==> signersOKS(extra, len(keyperSet.Keypers))
+//@   ensures ret0 == 0 && !emptySigs(extra) ==> sigData != nil && dataIsS(sigData, keys)
+//@   ensures ret0 == 0 && !emptySigs(extra) ==> (forall j :: 0 <= j && j < len(extra.Signature) ==> (isHexAddr(keyperSet.Keypers[extra.SignerIndices[j]]) && sigOKS(sigData, content(extra.Signature[j]), hexToAddr(keyperSet.Keypers[extra.SignerIndices[j]]))))
+//@   invariant@1 len(identityPreimages) == rangeindex + 1
+//@   invariant@1 fresh(identityPreimages) || len(identityPreimages) == 0
+//@   invariant@1 forall j :: 0 <= j && j <= rangeindex ==> identityPreimages[j] == keys.Keys[j].IdentityPreimage
+//@   invariant@2 0 <= signatureIndex
+//@   invariant@2 forall j :: 0 <= j && j < signatureIndex ==> sigOKS(sigData, content(extra.Signature[j]), signers[j])
+//@
+//@ pred keysOfS(msg) := as(msg, "*p2pmsg.DecryptionKeys")
+//@ pred serviceOf(k) := as(k.Extra, "*p2pmsg.DecryptionKeys_Service").Service
+//@ pred isKeysMsgS(msg) := typeis(msg, "*p2pmsg.DecryptionKeys") && keysOfS(msg) != nil && wfKeysS(keysOfS(msg)) && (typeis(keysOfS(msg).Extra, "*p2pmsg.DecryptionKeys_Service") ==> as(keysOfS(msg).Extra, "*p2pmsg.DecryptionKeys_Service") != nil) && ((typeis(keysOfS(msg).Extra, "*p2pmsg.DecryptionKeys_Service") && serviceOf(keysOfS(msg)) != nil) ==> wfExtraS(serviceOf(keysOfS(msg))))
+//@ pred acceptedKeysS(k) := typeis(k.Extra, "*p2pmsg.DecryptionKeys_Service") && serviceOf(k) != nil && len(serviceOf(k).Signature) == len(serviceOf(k).SignerIndices)
+//@ func (*DecryptionKeysHandler).ValidateMessage
+//@   requires h != nil && isKeysMsgS(msg)
+//@   ensures ret0 == 0 ==> acceptedKeysS(keysOfS(msg))
+//@ func (*DecryptionKeysHandler).HandleMessage
+//@   requires h != nil && isKeysMsgS(msg) && acceptedKeysS(keysOfS(msg))
+//@
+//@ pred sharesOfS(msg) := as(msg, "*p2pmsg.DecryptionKeyShares")
+//@ pred isSharesMsgS(msg) := typeis(msg, "*p2pmsg.DecryptionKeyShares") && sharesOfS(msg) != nil && len(sharesOfS(msg).Shares) <= MAXMSG && (forall i :: 0 <= i && i < len(sharesOfS(msg).Shares) ==> sharesOfS(msg).Shares[i] != nil) && (typeis(sharesOfS(msg).Extra, "*p2pmsg.DecryptionKeyShares_Service") ==> as(sharesOfS(msg).Extra, "*p2pmsg.DecryptionKeyShares_Service") != nil)
+//@ pred acceptedSharesS(k) := typeis(k.Extra, "*p2pmsg.DecryptionKeyShares_Service") && as(k.Extra, "*p2pmsg.DecryptionKeyShares_Service").Service != nil
+//@ func (*DecryptionKeySharesHandler).ValidateMessage
+//@   requires h != nil && isSharesMsgS(msg)
+//@   ensures ret0 == 0 ==> acceptedSharesS(sharesOfS(msg))
+//@ func (*DecryptionKeySharesHandler).HandleMessage
+//@   requires h != nil && isSharesMsgS(msg) && acceptedSharesS(sharesOfS(msg))
